@@ -262,16 +262,16 @@ theorem C06_invariant_all_histories {sp : Space} (hsp : SpaceOK sp) (ops : List 
     operations interleaved with edits, on every well-formed space, the edited space is still well-formed (its
     connections lead to its own cells), it has the cells, capacities and kind it was built with, the occupancy
     state is `Reachable` (so every theorem of this file holds for it, with relative moves following the edited
-    connections) and satisfies the full invariant; an edit never touches the occupancy state; and histories
-    without edits are the special case. -/
+    connections) and satisfies the full invariant; histories without edits are the special case.  (An edit never
+    touches the occupancy state — by construction of `dstep`; the check compares the full observation after the
+    next operation.) -/
 theorem C06_histories_with_connection_edits {sp0 : Space} (hsp0 : SpaceOK sp0) (ops : List DOp) :
     let r := drun sp0 (init sp0) ops
     SpaceOK r.1 ∧ Reachable r.1 r.2 ∧ Inv r.1 r.2 ∧
     r.1.cells = sp0.cells ∧ r.1.cap = sp0.cap ∧ r.1.isGrid = sp0.isGrid ∧
-    (∀ c c2 key, (dstep r.1 r.2 (.connect c c2 key)).1.2 = r.2 ∧ (dstep r.1 r.2 (.disconnect c c2)).1.2 = r.2) ∧
     (∀ l : List Op, drun sp0 (init sp0) (l.map .op) = (sp0, run sp0 (init sp0) l)) := by
   obtain ⟨h1, h2, h3, h4, h5⟩ := drun_inv hsp0 (inv_init sp0) ops
-  exact ⟨h1, ⟨sp0, ops, hsp0, rfl⟩, h2, h3, h4, h5, fun _ _ _ => ⟨rfl, rfl⟩, fun l => drun_ops sp0 (init sp0) l⟩
+  exact ⟨h1, ⟨sp0, ops, hsp0, rfl⟩, h2, h3, h4, h5, fun l => drun_ops sp0 (init sp0) l⟩
 
 /-- `Grid2DMovingAgent` direction names on a `HexGrid` (tables and `DIRECTION_MAP` as the source has them now):
     the connection keys of a hex cell depend on the parity of its column `j = coordinate[1]`, so
@@ -311,35 +311,42 @@ theorem C06_hex_direction_names :
     cells — `all_cells`, `empties`, every (memoised) neighbourhood at every radius, every selection out of these —
     `coll.agents` is the cells' agent lists *as they are now*, lists nobody twice, lists exactly the agents listed
     by a cell of the collection, i.e. (for agents still in the model) exactly those whose `cell` is in the
-    collection; `coll[cell]` is that cell's list (KeyError outside the collection) and `cell in coll` is membership. -/
+    collection; `coll[cell]` answers only for cells of the collection, with a duplicate-free list of agents that all
+    report that cell and all belong to `coll.agents`. -/
 theorem C06_collection_views {sp : Space} (hsp : SpaceOK sp) {s : State} (h : Reachable sp s) :
     (∀ cells : Coll, cells.Nodup →
       (collAgents s cells).Nodup ∧
       (∀ a, a ∈ collAgents s cells ↔ ∃ c ∈ cells, a ∈ s.occ c) ∧
       (∀ a, a ∈ s.registry → (a ∈ collAgents s cells ↔ ∃ c ∈ cells, s.cellOf a = some c)) ∧
-      (∀ c, collGet s cells c = (if c ∈ cells then some (s.occ c) else none)) ∧
-      (∀ c, collHas cells c = true ↔ c ∈ cells)) ∧
+      (∀ c l, collGet s cells c = some l →
+        c ∈ cells ∧ l.Nodup ∧ ∀ a ∈ l, s.cellOf a = some c ∧ a ∈ collAgents s cells)) ∧
     (sp.cells.Nodup ∧ (empties sp s).Nodup ∧
       (∀ r ic c, (nbhd (nbOfConn sp.conn) r ic c).Nodup) ∧
       (∀ f am (cells : Coll), cells.Nodup → (select f am cells).Nodup)) := by
   have hi := reachable_inv hsp h
-  refine ⟨fun cells hnd => ⟨collAgents_nodup hi hnd, mem_collAgents s cells, fun a hr => ?_, fun c => rfl,
-    fun c => by simp [collHas]⟩, hsp.nodup, hsp.nodup.filter _, fun r ic c => nbhd_nodup _ r ic c,
+  refine ⟨fun cells hnd => ⟨collAgents_nodup hi hnd, mem_collAgents s cells, fun a hr => ?_, fun c l hg => ?_⟩,
+    hsp.nodup, hsp.nodup.filter _, fun r ic c => nbhd_nodup _ r ic c,
     fun f am cells hnd => (select_sublist f am cells).nodup hnd⟩
-  rw [mem_collAgents]
-  constructor
-  · rintro ⟨c, hc, hm⟩; exact ⟨c, hc, hi.mem_cell a c hm⟩
-  · rintro ⟨c, hc, hco⟩
-    rcases hi.cell_mem a c hco with h1 | ⟨_, h2⟩
-    · exact ⟨c, hc, h1⟩
-    · exact absurd hr h2
+  · rw [mem_collAgents]
+    constructor
+    · rintro ⟨c, hc, hm⟩; exact ⟨c, hc, hi.mem_cell a c hm⟩
+    · rintro ⟨c, hc, hco⟩
+      rcases hi.cell_mem a c hco with h1 | ⟨_, h2⟩
+      · exact ⟨c, hc, h1⟩
+      · exact absurd hr h2
+  · unfold collGet at hg
+    split at hg
+    · rename_i hc
+      simp only [Option.some.injEq] at hg
+      subst hg
+      exact ⟨hc, hi.nodup c, fun a ha => ⟨hi.mem_cell a c ha, (mem_collAgents s cells a).mpr ⟨c, hc, ha⟩⟩⟩
+    · cases hg
 
 /-- `select(filter_func, at_most)` on any collection, for every filter function and every bound: the result is
-    the matching cells in the collection's order, cut after the first `limit` of them, where `limit` is the int
-    itself (nothing for an int ≤ 0), `int(len * at_most)` for a float ≤ 1 and the float rounded up above 1; so it is a
-    sub-collection in the same order, every cell in it passes the filter, it never holds more than `limit` cells,
-    without a bound it holds *every* matching cell; without filter and bound it is the collection itself; and
-    `space.empties` is `all_cells.select(is_empty)`. -/
+    the matching cells in the collection's order, cut after the first `limit` of them, where `limit` (`AtMost.limit`)
+    is the int itself (nothing for an int ≤ 0), `int(len * at_most)` for a float ≤ 1 and the float rounded up above 1;
+    so it is a sub-collection in the same order, every cell in it passes the filter, it never holds more than `limit`
+    cells, without a bound it holds *every* matching cell; and `space.empties` is `all_cells.select(is_empty)`. -/
 theorem C06_select_spec (f : Option (Cid → Bool)) (am : AtMost) (cells : Coll) :
     (select f am cells = match am.limit cells.length with
       | none => cells.filter (selFilter f)
@@ -348,15 +355,10 @@ theorem C06_select_spec (f : Option (Cid → Bool)) (am : AtMost) (cells : Coll)
     (∀ c ∈ select f am cells, c ∈ cells ∧ selFilter f c = true) ∧
     (∀ l, am.limit cells.length = some l → (select f am cells).length ≤ l) ∧
     (∀ c, c ∈ select f .inf cells ↔ c ∈ cells ∧ selFilter f c = true) ∧
-    (selectIsSelf f am = true → select f am cells = cells) ∧
-    (∀ n : Nat, AtMost.limit cells.length (.int n) = some n) ∧
-    (∀ a b, a ≤ b → AtMost.limit cells.length (.frac a b) = some (cells.length * a / b)) ∧
     (∀ sp s, empties sp s = select (some (isEmpty s)) .inf sp.cells) := by
   refine ⟨select_eq f am cells, select_sublist f am cells, fun c hc => select_mem_filter f am cells hc,
-    fun l hl => select_length_le f am cells hl, fun c => ?_, fun hs => ?_, fun n => by simp [AtMost.limit],
-    fun a b hab => by simp [AtMost.limit, hab], fun sp s => ?_⟩
+    fun l hl => select_length_le f am cells hl, fun c => ?_, fun sp s => ?_⟩
   · rw [select_eq]; simp [AtMost.limit, List.mem_filter]
-  · cases f <;> cases am <;> simp_all [selectIsSelf, select]
   · rw [select_eq]; simp [AtMost.limit, empties, selFilter]
 
 /-- `select_random_cell` / `select_random_agent` on any collection (C01: which draws, over which population):
